@@ -227,13 +227,25 @@ package pipeline
 
 //@ func (*Batcher).heartbeat
 //@   bind trySendBatchAndUnlock lastSize := 0
+//@   ghost ncheck int = 0
+//@   ghost nsleep int = 0
 //@   ensures !held(b.mu)
+//@   loop 1 invariant ncheck == nsleep
+//@   callee getBatch() (bt)
+//@     requires ncheck == nsleep
+//@   callee trySendBatchAndUnlock(bt)
+//@     requires ncheck == nsleep
+//@     set ncheck := ncheck + 1
 //@   callee Sleep(d)
 //@     requires 0 < d && d <= 100000000
+//@     requires ncheck == nsleep + 1
 //@     pure
+//@     set nsleep := nsleep + 1
 
 // (Bounded staleness: the age of the current batch is re-evaluated at least every
-// 100 ms, whatever happened before - the "scheduling slack" of the flush timeout.)
+// 100 ms, whatever happened before - the "scheduling slack" of the flush timeout:
+// every pause is preceded by one evaluation of the current batch - ghost counters -
+// whatever the state of the free pool.)
 
 // commitBatch: waits for its turn (commitSeq == batch.seq), then commits every
 // event of the batch exactly once, in index order, while holding seqMu, and only
